@@ -156,7 +156,7 @@ func spellString(rt *rapid.T, s string) (string, int) {
 		case r == '"' && rapid.Bool().Draw(rt, "esc_q"):
 			b.WriteString(`\"`)
 			escapes++
-		case r != 'n' && r != 'r' && r != 't' && r != '\n' && gen.Uniform(rt, "gratuitous", 8) == 0:
+		case r != 'n' && r != 'r' && r != 't' && r != '\n' && gen.Uniform(rt, "gratuitous", 6) == 0:
 			// any other escaped character is taken literally
 			b.WriteRune('\\')
 			b.WriteRune(r)
@@ -176,6 +176,13 @@ func TestC14Strings(t *testing.T) {
 	replayKnown(t, col, "C14")
 	rapidCheck(t, col, func(rt *rapid.T) {
 		s := drawText(rt, "text", 12)
+		if gen.Uniform(rt, "crlf", 5) == 0 {
+			// line ends of every kind, also right behind a backslash
+			seqs := []string{"\r\n", "\\\r\n", "\r", "\n\r", "\\\n", "\\\r", "\r\n\r\n"}
+			rs := []rune(s)
+			at := rapid.IntRange(0, len(rs)).Draw(rt, "crlfat")
+			s = string(rs[:at]) + seqs[gen.Uniform(rt, "crlfseq", len(seqs))] + string(rs[at:])
+		}
 		lit, escapes := spellString(rt, s)
 		src := "x = " + lit + ";"
 		lc := &LexCase{Prop: "C14", Kind: "lex", Src: src, Want: []tok{{"IDENT", "x"}, {"=", "="}, {"STRING", s}, {";", ";"}, {"EOF", ""}}}
